@@ -156,6 +156,7 @@ VR_CFG = dict(R=2, M=1, N=1, ver_kinds=('int', 'float'), ver_kinds_U=('int', 'bo
 
 def pre(res, tier):
     lem = vdeleg.lemma_units('vd', 'c13d', **VD_CFG) + vdeleg.lemma_units('vr', 'c13r', **VR_CFG)
+    lem += vdeleg.lemma_units('vd', 'c13ia', R=1, M=1, N=1, junk=False) + vdeleg.lemma_units('vd', 'c13ib', R=1, M=1, N=1, junk=False)
     vdeleg.prove_checker_lemmas(res, sys.modules[__name__], lem)
 
 
@@ -174,6 +175,7 @@ def units(tier):
                    max_witnesses=100, expect=('accepts', 'rejects:SignatureError')))
     us.append(Unit('verify_delegation', vdeleg.factory_vd('c13d', PROPS, **VD_CFG), max_witnesses=300,
                    expect=('accepts', 'rejects:UnknownRoleError', 'rejects:MetadataVerificationError', 'rejects:SignatureError', 'rejects:TypeError')))
+    us.append(Unit('verify_delegation: trusted object reused, then broken', vdeleg.factory_vd_inplace('c13i', ('C05',), then_break=True, R=1, M=1, N=1, junk=False), max_witnesses=60, expect=('A/R', 'R/A', 'R/R')))
     us.append(Unit('verify_root', vdeleg.factory_vr('c13r', PROPS, **VR_CFG), max_witnesses=300,
                    expect=('accepts', 'rejects:MetadataVerificationError', 'rejects:SignatureError', 'rejects:ValueError')))
     return us
@@ -195,17 +197,23 @@ def concrete(case):
         return vsign.run_verify_signable(case)
     if sc == 'verify_delegation':
         return vdeleg.run_vd(case)
+    if sc == 'vd_inplace':
+        return vdeleg.run_vd_inplace(case)
     if sc == 'verify_root':
         return vdeleg.run_vr(case)
     raise ValueError(sc)
 
 
 def agrees(case, obs):
+    if case.get('scenario') == 'vd_inplace':
+        return 'outcomes' in obs and all(CC.same_outcome(p, o) for p, o in zip(case['predicted'], obs['outcomes']))
     return 'outcome' in obs and CC.same_outcome(case.get('predicted'), obs['outcome'])
 
 
 def judge(case, obs):
     sc = case.get('scenario')
+    if sc == 'vd_inplace':
+        return vdeleg.judge_vd_inplace(case, obs, ('C05',))
     if sc == 'lemma' or 'outcome' not in obs:
         return None
     oc = obs['outcome']
